@@ -141,7 +141,8 @@ def _block_singletons(
                 assert u == tskit.NULL or v == tskit.NULL
                 individuals_edges[i] = [e, max(u, v)]
                 individuals_position[i] = left
-                if individuals_block[i] == tskit.NULL:
+                # a block starts once both of the individual's nodes have an edge
+                if individuals_block[i] == tskit.NULL and max(u, v) != tskit.NULL:
                     individuals_block[i] = num_blocks
                     num_blocks += 1
             a += 1
@@ -157,7 +158,11 @@ def _block_singletons(
             m = indexes_mutation[d]
             c = mutations_node[m]
             i = nodes_individual[c]
-            if i != tskit.NULL and individuals_unphased[i]:
+            if (
+                i != tskit.NULL
+                and individuals_unphased[i]
+                and individuals_block[i] != tskit.NULL
+            ):
                 mutations_block[m] = individuals_block[i]
                 individuals_singletons[i] += 1.0
             d += 1
